@@ -82,6 +82,7 @@ Deser(t, j) ==
 
 \* ---- configurations and the valid values enumerated for them -------------------------------------
 Cfg0 == [lo |-> NoB, hi |-> NoB, il |-> TRUE, ih |-> TRUE, an |-> FALSE, it |-> "none", objs |-> "strs", cls |-> "int",
+         cos |-> TRUE,    \* cos = FALSE: check_on_set=False -- a value outside the objects is accepted and becomes one of them
          soft |-> FALSE,  \* soft: softbounds=(3, 3.5) declared as well -- a hint for user interfaces that constrains nothing
          dn |-> FALSE]    \* dn: declared without a default, which leaves the default None (ListSelector; Selector without objects)
 BOOL == {TRUE, FALSE}
@@ -95,6 +96,7 @@ Cfgs(t) ==
     [] t = "List" -> {[Cfg0 EXCEPT !.an = an, !.it = it] : an \in BOOL, it \in {"none", "int", "str", "float"}}
     [] t = "Selector" -> {[Cfg0 EXCEPT !.an = an, !.objs = o] : an \in BOOL, o \in {"strs", "ints", "mixed", "dictints"}}
                          \cup {[Cfg0 EXCEPT !.an = an, !.objs = "empty", !.dn = TRUE] : an \in BOOL}
+                         \cup {[Cfg0 EXCEPT !.an = an, !.objs = o, !.cos = FALSE] : an \in BOOL, o \in {"ints", "dictints"}}
     [] t = "ListSelector" -> {[Cfg0 EXCEPT !.an = an, !.objs = o, !.dn = dn] : an \in BOOL, o \in {"strs", "ints", "mixed", "dictints"}, dn \in BOOL}
     [] t = "ClassSelector" -> {[Cfg0 EXCEPT !.an = an, !.cls = c] : an \in BOOL, c \in {"int", "str", "float", "intstr", "bool", "list", "dict"}}
     [] OTHER -> AN
@@ -107,6 +109,8 @@ Nums == Ints \cup {F(-3), F(0), F(1), F(3), F(8), F(9)}
 ObjsOf(c) == CASE c.objs = "strs" -> {S("a"), S("b")} [] c.objs = "ints" -> {I(1), I(2)} [] c.objs = "mixed" -> {I(1), S("a"), F(3)}
                [] c.objs = "empty" -> {}
                [] c.objs = "dictints" -> {I(1), I(2)}        \* declared as a dict {"one": 1, "two": 2}: the objects are its values
+\* (with check_on_set = FALSE the string "zz" has been assigned, and so belongs to the objects, by the time the schema is taken)
+AllObjs(c) == ObjsOf(c) \cup (IF c.cos THEN {} ELSE {S("zz")})
 Nullable(c) == c.an \/ c.dn          \* None is a state the object can be in
 Vals(t, c) ==
   (IF Nullable(c) THEN {None} ELSE {}) \cup
@@ -128,7 +132,7 @@ Vals(t, c) ==
                         [] c.it = "str" -> {Lst(<<S("a1")>>), Lst(<<>>)}
                         [] c.it = "float" -> {Lst(<<F(3), F(0)>>)})
     [] t = "Dict" -> {Dct(<<>>, <<>>), Dct(<<"k">>, <<I(1)>>), Dct(<<"k", "m">>, <<Lst(<<I(1), Dct(<<"z">>, <<None>>)>>), S("a1")>>)}
-    [] t = "Selector" -> ObjsOf(c)
+    [] t = "Selector" -> AllObjs(c)
     [] t = "ListSelector" -> {Lst(<<>>)} \cup {Lst(<<x>>) : x \in ObjsOf(c)} \cup {Lst(<<x, y>>) : x \in ObjsOf(c), y \in ObjsOf(c)}
     [] t = "ClassSelector" -> (CASE c.cls = "int" -> {I(1)} [] c.cls = "str" -> {S("a1")} [] c.cls = "float" -> {F(3)}
                                  [] c.cls = "intstr" -> {I(2), S("a1")} [] c.cls = "bool" -> {Bo(TRUE)}
@@ -145,7 +149,7 @@ LitType(v) == CASE v.k = "int" -> "integer" [] v.k = "float" -> "number" [] v.k 
 ClsSchema(cn) == CASE cn = "int" -> Sch("integer") [] cn = "str" -> Sch("string") [] cn = "float" -> Sch("number")
                    [] cn = "intstr" -> [Sch("any") EXCEPT !.anyOf = <<Sch("integer"), Sch("string")>>]
                    [] cn = "bool" -> Sch("boolean") [] cn = "list" -> Sch("array") [] cn = "dict" -> Sch("object")
-EnumOf(c) == {Plain(x) : x \in ObjsOf(c)}
+EnumOf(c) == {Plain(x) : x \in AllObjs(c)}
 Base(t, c) ==
   CASE t = "Integer" -> WithBounds(Sch("integer"), c)
     [] t = "Number" -> WithBounds(Sch("number"), c)
